@@ -213,6 +213,15 @@ pub fn observe(m: &mut Mdl, c: &Call, r: &mut Rules, w: usize) {
         CallKind::SetPingrespTo(d) => {
             m.pingresp_to = *d;
         }
+        CallKind::SetOpt(k, v) => {
+            if *k == 0 {
+                m.auto_pub = *v;
+            } else {
+                m.offline = *v;
+            }
+            m.opt_toggles += 1;
+            r.label("option-toggled");
+        }
         CallKind::SetInterval(d) => {
             m.user_interval = *d;
             if pre.st == St::Disc && !resets.is_empty() {
@@ -927,7 +936,7 @@ fn on_recv(m: &mut Mdl, pre: &Mdl, ap: &AP, frame: &[u8], c: &Call, r: &mut Rule
                                     r.label("ack.pubrec-error");
                                 } else {
                                     m.ids.insert(id, if c.sent_ack(AckKind::Pubrel, id) { Owner::Rel } else { Owner::RelOwed });
-                                    if r.cfg.auto_pub && pre.st == St::Connected && !c.sent_ack(AckKind::Pubrel, id) {
+                                    if pre.auto_pub && pre.st == St::Connected && !c.sent_ack(AckKind::Pubrel, id) {
                                         r.viol("c06.no-auto-pubrel", pre, format!("automatic responses are on but PUBREC {id} is not answered with PUBREL: {}", c.describe()));
                                     }
                                 }
